@@ -62,10 +62,6 @@ Proof. intro H. rewrite (paths_agree f H). apply single_is_first_failing. Qed.
 
 (* ---- system senders --------------------------------------------------------------------------- *)
 
-(* the command is checked at all, and its channel id could be normalised *)
-Definition checked (f : facts) : bool :=
-  negb (permission_free f) && negb (is_person (f_type f) && f_norm f && f_norm_err f).
-
 (* a system uid is subject to the terminal check and to nothing else, on both paths *)
 Lemma system_uid_bypass (f : facts) : checked f = true -> f_sender_sys f = true ->
   decide_single f = first_failing (terminal_checks f)
@@ -80,9 +76,6 @@ Lemma system_device_bypass (f : facts) : checked f = true -> f_sender_sys f = fa
 Proof. destruct_facts f. unfold checked. intros H1 H2 H3. split; revert H1 H2 H3; tree. Qed.
 
 (* the terminal check is never bypassed: a disbanded channel accepts nothing that is checked *)
-Definition target_disbanded (f : facts) : bool :=
-  negb (r_err (f_target f)) && r_found (f_target f) && r_disband (f_target f).
-
 Lemma disband_is_terminal (f : facts) : checked f = true -> target_disbanded f = true ->
   ok (decide_single f) = false /\ ok (decide_batch f) = false.
 Proof.
@@ -98,6 +91,73 @@ Lemma system_uid_disband (f : facts) : checked f = true -> f_sender_sys f = true
   decide_single f = (ReasonDisband, ENone) /\ decide_batch f = (ReasonDisband, ENone).
 Proof.
   destruct_facts f. unfold checked, target_disbanded. intros H1 H2 H3. split; revert H1 H2 H3; tree.
+Qed.
+
+(* ---- C36-K3: "disbanded channels first" is not the order of the code ------------------------------ *)
+
+Ltac disj := solve [repeat split; reflexivity] || (left; disj) || (right; disj).
+Ltac tree_disj := cbv; repeat (split_head; cbv); try discriminate; intros; disj.
+
+(* group: sender send-banned, group banned AND disbanded *)
+Definition k3_witness_sendban : facts :=
+  Facts TGroup false false false false false false false false false false AgErr false
+        (RR true true false false false false false)       (* sender: found, SendBan *)
+        (RR true false true true false false false)        (* group: found, Ban, Disband *)
+        zero_result zero_result zero_result zero_result zero_result.
+Definition k3_witness_ban : facts :=
+  Facts TGroup false false false false false false false false false false AgErr false
+        (RR true false false false false false false)      (* sender: found, no SendBan *)
+        (RR true false true true false false false)        (* group: found, Ban, Disband *)
+        zero_result zero_result zero_result zero_result zero_result.
+
+Lemma disband_first_refuted :
+  (checked k3_witness_sendban = true /\ target_disbanded k3_witness_sendban = true
+   /\ decide_single k3_witness_sendban = (ReasonSendBan, ENone)
+   /\ decide_batch k3_witness_sendban = (ReasonSendBan, ENone)
+   /\ k3_cond k3_witness_sendban = true)
+  /\ (checked k3_witness_ban = true /\ target_disbanded k3_witness_ban = true
+      /\ decide_single k3_witness_ban = (ReasonBan, ENone)
+      /\ decide_batch k3_witness_ban = (ReasonBan, ENone)
+      /\ k3_cond k3_witness_ban = true).
+Proof. vm_compute. repeat split. Qed.
+
+(* apart from those two shadowing reasons (and a failed read of the sender's row) Disband comes
+   first: a disbanded target never yields Success or any later reason *)
+Lemma disbanded_outcomes (f : facts) : checked f = true -> target_disbanded f = true ->
+  decide_single f = (ReasonDisband, ENone)
+  \/ (f_sender_sys f = false /\ decide_single f = (ReasonSendBan, ENone))
+  \/ (f_type f = TGroup /\ f_sender_sys f = false /\ f_device_sys f = false
+      /\ decide_single f = (ReasonBan, ENone))
+  \/ (f_sender_sys f = false /\ r_err (f_sender f) = true
+      /\ decide_single f = (ReasonSystemError, EStore)).
+Proof.
+  destruct_facts f. unfold checked, target_disbanded. intros H1 H2. revert H1 H2. tree_disj.
+Qed.
+
+Lemma disbanded_outcomes_batch (f : facts) : k2_cond f = false ->
+  checked f = true -> target_disbanded f = true ->
+  decide_batch f = (ReasonDisband, ENone)
+  \/ (f_sender_sys f = false /\ decide_batch f = (ReasonSendBan, ENone))
+  \/ (f_type f = TGroup /\ f_sender_sys f = false /\ f_device_sys f = false
+      /\ decide_batch f = (ReasonBan, ENone))
+  \/ (f_sender_sys f = false /\ r_err (f_sender f) = true
+      /\ decide_batch f = (ReasonSystemError, EStore)).
+Proof. intro H. rewrite (paths_agree f H). apply disbanded_outcomes. Qed.
+
+(* and when no earlier check of the existing order fails, Disband is what is reported *)
+Lemma disband_unshadowed (f : facts) : checked f = true -> target_disbanded f = true ->
+  shadowed f = false -> decide_single f = (ReasonDisband, ENone).
+Proof.
+  destruct_facts f. unfold checked, target_disbanded, shadowed. intros H1 H2 H3. revert H1 H2 H3. tree.
+Qed.
+
+(* the K3 signature is exactly: checked, disbanded target, shadowed by SendBan or Ban *)
+Lemma k3_cond_spec (f : facts) : k3_cond f = true ->
+  checked f = true /\ target_disbanded f = true
+  /\ (decide_single f = (ReasonSendBan, ENone) \/ decide_single f = (ReasonBan, ENone)).
+Proof.
+  destruct_facts f. unfold k3_cond, sig_k3.
+  cbv; repeat (split_head; cbv); try discriminate; intros; repeat split; disj.
 Qed.
 
 (* the reasons in use are pairwise distinct, so "reason" identifies the failing check *)
